@@ -9,6 +9,7 @@ import (
 	"fmt"
 	"math/big"
 	"strings"
+	"sync"
 
 	"github.com/libsv/go-bk/base58"
 	"github.com/libsv/go-bk/bec"
@@ -110,9 +111,9 @@ func specAddress(version byte, h []byte) string {
 type class int
 
 const (
-	valid class = iota
-	wrongChecksum // Base58 of 25 bytes with a supported version, only the checksum is wrong
-	malformed     // anything else
+	valid         class = iota
+	wrongChecksum       // Base58 of 25 bytes with a supported version, only the checksum is wrong
+	malformed           // anything else
 )
 
 // classify: is s = Base58(version || h || first4(sha256d(version || h))), version 00/6f, |h| = 20 ?
@@ -338,6 +339,24 @@ func hashCase(h []byte, mainnet bool, toCoq bool) string {
 			violate("NewP2PKHFrom*/constructors-disagree", fmt.Sprintf("%x %x %x", *s1, *s2, *s3), in)
 		} else {
 			retain("hash constructors", want, s1, s2, s3, tx.Outputs[0].LockingScript, tx.Outputs[1].LockingScript)
+			// the owner of a result edits it (extends it, overwrites a byte); what the constructors hand out next is unaffected
+			for k, mk := range []func() (*bscript.Script, error){
+				func() (*bscript.Script, error) { return bscript.NewP2PKHFromAddress(a.AddressString) },
+				func() (*bscript.Script, error) { return bscript.NewP2PKHFromPubKeyHash(h) },
+				func() (*bscript.Script, error) { return bscript.NewP2PKHFromPubKeyHashStr(hex.EncodeToString(h)) },
+			} {
+				if o1, err := mk(); err == nil && o1 != nil && len(*o1) > 3 {
+					(*o1)[3] ^= 0xff
+					_ = o1.AppendOpcodes(bscript.OpDROP)
+					_ = o1.AppendPushData([]byte("invoice 42"))
+				}
+				o2, err := mk()
+				t2 := bt.NewTx()
+				e2 := t2.AddP2PKHOutputFromAddress(a.AddressString, 7)
+				if err != nil || o2 == nil || !bytes.Equal(*o2, want) || e2 != nil || !bytes.Equal(*t2.Outputs[0].LockingScript, want) {
+					violate("NewP2PKHFrom*/result-depends-on-edits-of-an-earlier-result", fmt.Sprintf("constructor %d after its earlier result was edited by its owner", k), in)
+				}
+			}
 			sc := bscript.Script(want)
 			got, err := sc.PublicKeyHash()
 			if err != nil || !bytes.Equal(got, h) {
@@ -437,6 +456,67 @@ func checkRetained() {
 		}
 	}
 	c.Stats.Extra["retained_scripts_rechecked"] = len(retained)
+}
+
+// concurrentDerivation: the constructors are functions of their arguments also when several goroutines call them at once
+// (a shared scratch buffer or hash state would show here and nowhere in a sequential run).
+func concurrentDerivation(hashes [][]byte, rounds int) {
+	type want struct{ main, test string }
+	ws := make([]want, len(hashes))
+	for i, h := range hashes {
+		ws[i] = want{specAddress(0, h), specAddress(0x6f, h)}
+	}
+	var wg sync.WaitGroup
+	var mu sync.Mutex
+	bad, total := 0, 0
+	for g := 0; g < 8; g++ {
+		wg.Add(1)
+		go func(g int) {
+			defer wg.Done()
+			n := 0
+			for k := 0; k < rounds; k++ {
+				for i, h := range hashes {
+					if len(h) != 20 {
+						continue
+					}
+					mainnet := (i+g+k)%2 == 0
+					exp := ws[i].test
+					if mainnet {
+						exp = ws[i].main
+					}
+					var got, msg string
+					panicked, pm := common.Safely(func() {
+						a, err := bscript.NewAddressFromPublicKeyHash(h, mainnet)
+						if err != nil {
+							msg = err.Error()
+							return
+						}
+						got = a.AddressString
+						if ok, err := bscript.ValidateAddress(got); !ok {
+							msg = "does not validate: " + fmt.Sprint(err)
+						}
+						if s, err := bscript.NewP2PKHFromAddress(got); err != nil || !bytes.Equal(*s, p2pkh(h)) {
+							msg += " NewP2PKHFromAddress: " + fmt.Sprint(err)
+						}
+					})
+					n++
+					if panicked || got != exp || msg != "" {
+						mu.Lock()
+						bad++
+						if bad <= 3 {
+							violate("NewAddressFromPublicKeyHash/differs-under-concurrent-callers", fmt.Sprintf("got %q want %q %s %s", got, exp, msg, pm), map[string]interface{}{"kind": "concurrent-derivation", "hash": hex.EncodeToString(h), "mainnet": mainnet, "goroutines": 8})
+						}
+						mu.Unlock()
+					}
+				}
+			}
+			mu.Lock()
+			total += n
+			mu.Unlock()
+		}(g)
+	}
+	wg.Wait()
+	c.Stats.Extra["concurrent_derivations"] = total
 }
 
 func scriptKeyCase(k []byte) {
@@ -799,7 +879,8 @@ func main() {
 
 	c.Stats.Extra["violation_counts_by_site"] = perSite
 	c.Stats.Extra["derived_addresses"] = len(derived)
-	c.Stats.Rule = "go-bk base58: byte lists (0..3 leading zeros, length 0..40) and alphabet strings incl. invalid characters. Hashes: boundary (all-zero, all-ff, 1..3 leading zero bytes) + seeded random 20-byte hashes x 2 networks; keys: seeded secp256k1 keys x 2 networks (HASH160 recomputed in Gallina); key/hash byte strings of other lengths. Strings: 6 base addresses (mainnet, two leading '1's, both testnet prefixes, burn address) with EVERY single-character substitution (57 x length; model side: all for the first address, 3 per position for the others; thorough: all), all adjacent transpositions, all deletions, insertions at every position ('1' and a random character; all 58 at first/second/last position), a non-Base58 character at every position, the payload plus k*2^200 for eight k (26-byte values whose low 25 bytes are valid), six non-ASCII look-alikes at every position (code points U+0100/U+0400/U+4E00 + the character, the character with the top bit set, a combining accent), whitespace/case variants, leading-'1' insertion/deletion; re-encoded payloads with altered checksum (bit flip, random, checksum without version, single SHA-256), wrong version bytes {05,c4,01,6e,70,80,ef,ff} with right checksum, payload lengths 24/26 and others with right checksum, long/short/empty strings, bitcoin-script texts. Every string goes through ValidateAddress, NewAddressFromString, NewP2PKHFromAddress, PayToAddress (a sample through ChangeToAddress). Scripts: canonical template, every truncation, byte substitutions at the template positions, PUSHDATA1/2/4 encodings, hostile lengths, random bytes through PublicKeyHash/IsP2PKH/Addresses. distinct = distinct input (string / bytes / hash+network); non-trivial = strings of at least 20 characters, 20-byte hashes, real keys, scripts longer than 2 bytes, non-empty codec inputs"
+	c.Stats.Rule = "go-bk base58: byte lists (0..3 leading zeros, length 0..40) and alphabet strings incl. invalid characters. Hashes: boundary (all-zero, all-ff, 1..3 leading zero bytes) + seeded random 20-byte hashes x 2 networks; keys: seeded secp256k1 keys x 2 networks (HASH160 recomputed in Gallina); key/hash byte strings of other lengths. Strings: 6 base addresses (mainnet, two leading '1's, both testnet prefixes, burn address) with EVERY single-character substitution (57 x length; model side: all for the first address, 3 per position for the others; thorough: all), all adjacent transpositions, all deletions, insertions at every position ('1' and a random character; all 58 at first/second/last position), a non-Base58 character at every position, the payload plus k*2^200 for eight k (26-byte values whose low 25 bytes are valid), six non-ASCII look-alikes at every position (code points U+0100/U+0400/U+4E00 + the character, the character with the top bit set, a combining accent), whitespace/case variants, leading-'1' insertion/deletion; re-encoded payloads with altered checksum (bit flip, random, checksum without version, single SHA-256), wrong version bytes {05,c4,01,6e,70,80,ef,ff} with right checksum, payload lengths 24/26 and others with right checksum, long/short/empty strings, bitcoin-script texts. Every string goes through ValidateAddress, NewAddressFromString, NewP2PKHFromAddress, PayToAddress (a sample through ChangeToAddress). Scripts: canonical template, every truncation, byte substitutions at the template positions, PUSHDATA1/2/4 encodings, hostile lengths, random bytes through PublicKeyHash/IsP2PKH/Addresses. Every hash constructor is called again after the owner of its earlier result edited that result; all hashes are derived, validated and turned into scripts again by 8 goroutines at once and compared with the specification. distinct = distinct input (string / bytes / hash+network); non-trivial = strings of at least 20 characters, 20-byte hashes, real keys, scripts longer than 2 bytes, non-empty codec inputs"
+	concurrentDerivation(hashes, pick(6, 40))
 	checkRetained()
 	c.Finish()
 }
